@@ -99,6 +99,9 @@ func standardScript(rng *rand.Rand, r *Run, closeProb int) {
 	if !r.Built {
 		return
 	}
+	if r.EditAfterBuild {
+		r.EditCollectionAfterBuild()
+	}
 	GenScript(rng, r, 1+rng.Intn(4), 6+rng.Intn(14), closeProb)
 	deep := r.Do(Op{Kind: OpCreate, Scope: 0, CtxKind: 1})
 	d2 := r.Do(Op{Kind: OpCreate, Scope: deep.NewScope, CtxKind: 0})
@@ -226,6 +229,7 @@ func runC01(c *eng.Ctx) {
 		}
 		c.R.Begin(idx)
 		r := NewRun(s, m, nil, nil)
+		r.EditAfterBuild = k%3 == 0 // the collection is emptied and partly refilled right after Build
 		standardScript(rng, r, 10)
 		finish(idx, r, "random")
 	}
@@ -388,6 +392,7 @@ func runC03(c *eng.Ctx) {
 		}
 		c.R.Begin(idx)
 		r := NewRun(s, m, nil, nil)
+		r.EditAfterBuild = k%4 == 2
 		standardScript(rng, r, 8)
 		finish(idx, r, "random")
 	}
